@@ -70,8 +70,9 @@ def make_kernel_classes():
     return NonSingletStub, GluonStub, IntrinsicStub
 
 
-def run_real_sv(env, nf, pto, ren, fact, which):
-    """Real compute_local on synthetic kernels; returns ({(k,i,j): {pid: value}}, spec of the central input)."""
+def run_real_sv(env, nf, pto, ren, fact, which, sv=None):
+    """Real compute_local on synthetic kernels; returns ({(k,i,j): {pid: value}}, spec of the central input).
+    sv: an already used ScaleVariations manager to serve this request (C14: one manager serves all points of a run)."""
     import yadism.coefficient_functions as cf
     from eko import basis_rotation as br
     from yadism.coefficient_functions import splitting_functions as split
@@ -80,7 +81,8 @@ def run_real_sv(env, nf, pto, ren, fact, which):
     from yadism.esf import scale_variations as svmod
 
     NonSingletStub, GluonStub, IntrinsicStub = make_kernel_classes()
-    sv = svmod.ScaleVariations(order=pto, interpolator=None, activate_ren=ren, activate_fact=fact)
+    if sv is None:
+        sv = svmod.ScaleVariations(order=pto, interpolator=None, activate_ren=ren, activate_fact=fact)
     P = {lab: env.var(lab) for lab in ELEMENTARY}
     for order_labels in sv.raw_labels:
         for lab in order_labels:
